@@ -53,6 +53,10 @@ CLAIMED = {
    text='TLC checks the heap model SFGo (objects with identity, growth calls append / extend with valid, duplicate, partially duplicate and mis-sized arguments, 28 derivation routes) exhaustively for small constants with the action properties AppendOnly, AllOrNothing and Isolation and the invariant NoDuplicates; the as-built variant (extend stops at the first duplicate) is kept as negative control and violates AllOrNothing; TLC simulation behaviours are replayed step by step on real FrameGO / IndexGO and derived containers, and seeded random histories recorded from the real code are validated line by line by Trace_Go (effect of the call = logged state, plus the step-wise properties evaluated on the logged states); after EVERY step EVERY live object is projected: labels, labels and data in step, every column readable, membership and lookup of every universe label (present and absent), read-only flags.',
    ref='DESIGN.md section 4 (C09)', note='IndexHierarchyGO growth is covered under C05. Zero-column Frames use a reduced route set (operators on them raise, recorded under C06).',
    technique='TLA+ heap model SFGo model checked with TLC (action properties); TLC simulation behaviours replayed into the code; recorded histories validated by a TLC trace spec'),
+ 'C01': dict(
+   text='TLC checks the heap model SFHeap (buffers, arrays with their own writeable flag, containers, caller-held references; construct through immutable_filter, caller writes, obtaining arrays, view / copy derivations) exhaustively for small constants against AllFrozen, NoChange, CallerIsolated and ObtainedFrozen, with FilterBug as negative control; TLC simulation behaviours are replayed on real NumPy arrays and containers over route tables (a write the model refuses must raise, a write it allows must stay invisible), and SFGo behaviours check that static objects derived from grow-only ones never change; the interface sweep calls every public name (incl. operators) of 12 fixtures with an argument table, deep-snapshots every fixture before and after and probes every array reachable from every result; TLC (Trace_Heap) checks NoChange / AllFrozen per recorded call.',
+   ref='DESIGN.md section 4 (C01)', note='Trusted: NumPy flags.writeable / shares_memory semantics. Flipping flags.writeable on an owning array is a NumPy operation outside the claim. matmul is excluded from the sweep (NumPy 2.5 segfaults in np.unique on its path).',
+   technique='TLA+ heap model SFHeap model checked with TLC; simulation behaviours replayed into the code; recorded interface sweep validated by a TLC trace spec'),
 }
 REASON_TODO = 'not yet built in this round: the specification module for this property is still being written (see DESIGN.md section 9)'
 ALL = ['C%02d' % i for i in range(1, 21)]
